@@ -239,5 +239,9 @@ Example db_scope_nonempty :
   let ds := [Basic (CreateNode [0]); Basic (CreateNode []); Basic (CreateEdge 0 1 0); Basic (CreateEdge 1 1 1); DbDeleteNode 1; DbDeleteNode 7] in
   hist_wf (dexpand (init false) ds) /\ dhist_dangles (init false) ds = false /\ node_count (drun (init false) ds) = 1.
 Proof.
-  cbv zeta. split; [split; [vm_compute; repeat constructor; unfold in_u64, two64; lia|vm_compute; reflexivity]|]. vm_compute. split; reflexivity.
+  cbv zeta.
+  assert (E : dexpand (init false) [Basic (CreateNode [0]); Basic (CreateNode []); Basic (CreateEdge 0 1 0); Basic (CreateEdge 1 1 1); DbDeleteNode 1; DbDeleteNode 7]
+              = [CreateNode [0]; CreateNode []; CreateEdge 0 1 0; CreateEdge 1 1 1; DeleteNodeEdges 1; DeleteNode 1; DeleteNode 7])
+    by (vm_compute; reflexivity).
+  rewrite E. split; [split; [repeat constructor; unfold in_u64, two64; lia|unfold two64; cbn; lia]|]. vm_compute. split; reflexivity.
 Qed.
